@@ -5,9 +5,9 @@
 package c06
 
 import (
-	"os"
 	"encoding/json"
 	"fmt"
+	"os"
 	"sort"
 	"strings"
 
